@@ -146,6 +146,21 @@ def write_file_case(root, n, case, xmile=False):
     return sub
 
 
+SIB = {}      # case number -> {"sib"/"late": (view, results)}: sibling scenarios of the same manager without overrides
+
+
+def sibling_views(b, n):
+    """'Base values apply to every scenario of the manager unless the scenario overrides them': a sibling
+    registered before, and one registered after, settings were supplied to s0 must still run with the base values"""
+    try:
+        b.register_scenarios(scenarios={"late": {}}, scenario_manager="mf")
+        b.reset_scenario_cache(scenario_manager="mf", scenario="sib")
+        res = b.run_scenarios(scenarios=["sib", "late"], scenario_managers=["mf"], equations=list(EQS), series_names={}, return_format="dict")
+        SIB[n] = {name: (view_of(b.get_scenario("mf", name)), frame_to_dict(res, "mf", name)) for name in ("sib", "late")}
+    except Exception as e:
+        SIB[n] = {"error": f"{type(e).__name__}: {e}"}
+
+
 def run_case(case, root, n):
     """real code; returns (view, results dict eq -> {t: v}, error)"""
     from BPTK_Py import bptk
@@ -175,11 +190,13 @@ def run_case(case, root, n):
             if case["bc"]: cfg["base_constants"] = {CONSTS[a]: float(v) for a, v in case["bc"].items()}
             if case["bp"]: cfg["base_points"] = {POINTS[a]: K.pts_val(v) for a, v in case["bp"].items()}
             b.register_scenario_manager({"mf": cfg})
-            b.register_scenarios(scenarios={"s0": K.mk_dict(case["d0"])}, scenario_manager="mf")
+            b.register_scenarios(scenarios={"s0": K.mk_dict(case["d0"]), "sib": {}}, scenario_manager="mf")
             sc = b.get_scenario("mf", "s0")
             if case["channel"] == "dict":
                 res = b.run_scenarios(scenarios=["s0"], scenario_managers=["mf"], equations=list(EQS), series_names={}, return_format="dict")
-                return view_of(sc), frame_to_dict(res, "mf", "s0"), None
+                out = view_of(sc), frame_to_dict(res, "mf", "s0"), None
+                sibling_views(b, n)
+                return out
             if case["channel"] == "rest":
                 from BPTK_Py.server import BptkServer
                 app = BptkServer(__name__, bptk_factory=lambda: b)
@@ -187,7 +204,9 @@ def run_case(case, root, n):
                                                             "scenarios": ["s0"], "equations": list(EQS)})
                 if resp.status_code != 200:
                     return view_of(sc), {}, f"HTTP {resp.status_code}"
-                return view_of(sc), frame_to_dict(json.loads(resp.data), "mf", "s0"), None
+                out = view_of(sc), frame_to_dict(json.loads(resp.data), "mf", "s0"), None
+                sibling_views(b, n)
+                return out
             # session
             e = expected(case)
             b.begin_session(scenarios=["s0"], scenario_managers=["mf"], settings={"mf": {"s0": K.mk_dict(case["d"])}}, equations=list(EQS),
@@ -202,6 +221,7 @@ def run_case(case, root, n):
                         out.setdefault(eq, {})[float(t)] = float(v)
             v = view_of(sc)
             b.end_session()
+            sibling_views(b, n)
             return v, out, None
         finally:
             b.destroy()
@@ -326,6 +346,24 @@ def check_case(case, root, n):
         want = {eq: {t: x for t, x in tv.items() if t >= 0.0} for eq, tv in want.items()}
     if res != want:
         viols.append((f"{case['channel']}-results", K.first_diff(res, want) + f"; model built directly with consts={exp['meqs']} points={exp['mpts']} runspecs={exp['mrs']}"))
+    sib = SIB.pop(n, None)
+    if sib is not None and not viols:
+        bexp = expected({"bc": case["bc"], "bp": case["bp"], "d0": {}, "d": {}, "files2": []})
+        bwant = K.oracle_run(bexp["meqs"], bexp["mpts"], bexp["mrs"])
+        if "error" in sib:
+            viols.append((f"{case['channel']}-sibling-raises", sib["error"]))
+        else:
+            for name in ("sib", "late"):
+                sv, sres = sib[name]
+                for comp in ("consts", "pts", "meqs", "mpts"):
+                    if sv[comp] != bexp[comp]:
+                        viols.append((f"{case['channel']}-sibling-{comp}", f"scenario '{name}' (no overrides, {'registered before' if name == 'sib' else 'registered after'} the settings for s0) {comp}: real {sv[comp]} expected the base values {bexp[comp]}"))
+                        break
+                else:
+                    if sres != bwant:
+                        viols.append((f"{case['channel']}-sibling-results", f"scenario '{name}': " + K.first_diff(sres, bwant)))
+                if viols:
+                    break
     return v, viols
 
 
